@@ -382,7 +382,7 @@ func genTemplate(r *gen.Rand) string {
 		}
 		return s
 	}
-	switch r.Intn(33) {
+	switch r.Intn(34) {
 	case 0:
 		return L() + W()
 	case 1:
@@ -466,6 +466,10 @@ func genTemplate(r *gen.Rand) string {
 		return W() + "(?i:" + L() + ")" + W()
 	case 29:
 		return ci(L()) + "(?:" + W() + L() + "|" + L() + ")"
+	case 33:
+		// second literal is a suffix of the first: containsInOrder must not re-use its runes
+		l1 := gen.Pick(r, []string{"ab", "aa", "foo", "aba", "abab", "x1", "zz"})
+		return ".*" + l1 + gen.Pick(r, []string{".*", ".+", "(?s:.*)"}) + l1[len(l1)-1-r.Intn(len(l1)-1):] + ".*"
 	case 30:
 		return W() + L() + "(" + L() + ")" + W()
 	case 31:
@@ -716,8 +720,12 @@ func main() {
 		add("")
 		add("\n")
 		add(gen.Pick(r, words))
-		if len(strs) > 24 {
-			strs = strs[:24]
+		maxStrs := 24
+		if f.Tier != "thorough" {
+			maxStrs = 16
+		}
+		if len(strs) > maxStrs {
+			strs = strs[:maxStrs]
 		}
 		// partition by ASCII-ness when a case-insensitive map matcher is involved (shape keys)
 		mp := findMap(dump.SM)
@@ -874,9 +882,12 @@ func main() {
 
 	// corpus
 	for i, c := range corpus {
+		if len(c.pat) > 600 && f.Tier != "thorough" {
+			continue // the 256/257/300-alternative boundary cases: thorough tier only (case file size)
+		}
 		emit(gen.Fork(f.Seed, 1_000_000+i), c.pat, c.strs, c.name)
 	}
-	n := f.Count(260, 3000)
+	n := f.Count(110, 3000)
 	for i := 0; i < n; i++ {
 		r := gen.Fork(f.Seed, i)
 		var pat string
@@ -888,7 +899,7 @@ func main() {
 		if r.Chance(1, 15) {
 			pat = "(?i)" + pat
 		}
-		if len(pat) > 3000 {
+		if len(pat) > 3000 || (len(pat) > 600 && f.Tier != "thorough") {
 			continue
 		}
 		emit(r, pat, nil, "")
@@ -934,12 +945,19 @@ var corpus = []corpusEntry{
 	{"simple-concat-adjacent-literals-2", ".*a(b).*", []string{"ab", "axb", "xabx", "ba"}},
 	{"simple-concat-adjacent-literals-3", ".*foo(bar).*baz.*", []string{"foobarbaz", "fooxbarbaz", "foobar", "foobarxbaz"}},
 	{"simple-concat-merged-literals", ".*foo(?:bar).*", []string{"foobar", "fooxbar", "xfoobarx"}},
+	{"in-order-overlap", ".*ab.*b.*", []string{"ab", "abb", "abxb", "b", "bab"}},
+	{"in-order-overlap-2", ".*aa.*a.*", []string{"aa", "aaa", "aaxa", "a"}},
+	{"in-order-overlap-3", ".*foo.*oo.*", []string{"foo", "foooo", "fooxoo", "oofoo"}},
+	{"in-order-overlap-prefilter", "x.*ab.*b.+", []string{"xab", "xabb", "xabbx", "xabxbx"}},
 	{"prefix-suffix", "foo.*bar", []string{"foobar", "fooxbar", "foobarx", "fobar"}},
 	{"in-order", ".*foo.*bar.*", []string{"foobar", "barfoo", "xfooybarz", "foo", "bar"}},
 	{"ci-prefix", "(?i:foo).*", []string{"foo", "FOOx", "fOo\n", "fo"}},
 	{"ci-suffix", ".*(?i:foo)", []string{"foo", "xFOO", "FoOx"}},
 	{"ci-kelvin", "(?i:k).*", []string{"k", "K", "K", "Kx", "x"}},
 	{"ci-kelvin-suffix", ".*(?i:k)", []string{"k", "K", "K", "xK", "x"}},
+	{"ci-kelvin-suffix-plus", ".+(?i:k)", []string{"K", "xK", "k", "xk", "xK"}},
+	{"ci-kelvin-suffix-quest", ".?(?i:k)", []string{"K", "xK", "k", "xk", "xxK"}},
+	{"ci-longs-suffix-nonl", "(?-s:.+)(?i:s)", []string{"ſ", "xſ", "\nſ", "xs"}},
 	{"ci-longs", "(?i:s)", []string{"s", "S", "ſ", "x"}},
 	{"ci-alt", "(?i)(foo|bar)", []string{"foo", "FOO", "Bar", "baz"}},
 	{"alt-prefix", "(foo|bar).*", []string{"foo", "barx", "baz"}},
